@@ -690,6 +690,21 @@ func (m *MTable) applyUpdate(s *Stmt) Outcome {
 				o1.ErrAlt = append(o1.ErrAlt, oi.Err)
 			}
 		}
+		// ... and so is the failure of a row against one other selected row processed just
+		// before it (two rows that pass on their own and collide on a unique value); found as a
+		// false alarm by the thorough tier (seed 12)
+		if len(idx) <= 12 {
+			for _, i := range idx {
+				for _, j := range idx {
+					if i == j {
+						continue
+					}
+					if _, oij := m.updateInOrder(s, []int{i, j}); oij.Err != "" && oij.Err != o1.Err {
+						o1.ErrAlt = append(o1.ErrAlt, oij.Err)
+					}
+				}
+			}
+		}
 	}
 	if o1.Err == "" {
 		m.Rows = w1.Rows
